@@ -84,9 +84,8 @@ func shModelTx(s *gen.Shape) *refsighash.Tx {
 // shSnapshot is the before/after canary of a transaction: both serialisations
 // plus what they do not show (nil-ness of the script pointers).
 func shSnapshot(tx *bt.Tx) []byte {
-	b := append([]byte{}, tx.Bytes()...)
-	b = append(b, 0xfe, 0xed)
-	b = append(b, tx.ExtendedBytes()...)
+	// the pointers first: serialising is itself a library call that must leave them alone
+	var b []byte
 	for _, in := range tx.Inputs {
 		f := byte(0)
 		if in.UnlockingScript == nil {
@@ -97,6 +96,16 @@ func shSnapshot(tx *bt.Tx) []byte {
 		}
 		b = append(b, f, byte(len(in.PreviousTxID())))
 	}
+	for _, o := range tx.Outputs {
+		if o.LockingScript == nil {
+			b = append(b, 4)
+		} else {
+			b = append(b, 0)
+		}
+	}
+	b = append(b, tx.Bytes()...)
+	b = append(b, 0xfe, 0xed)
+	b = append(b, tx.ExtendedBytes()...)
 	return b
 }
 
